@@ -41,7 +41,8 @@ STYLES = {
     "cls": {"class": "myclass"},
 }
 PAIRS_QUICK = [("i", "i"), ("i", "b"), ("b", "u"), ("ib", "u"), ("cls", "i"), ("ibu", "i"), ("i", "cls"), ("i", "ib"), ("u", "ibu")]
-ROUTES = ["dfxp", "sami", "dfxp>sami", "sami>dfxp", "vtt", "dfxp>vtt", "sami>vtt"]
+# "dfxp-single" / "dfxp-legacy": DFXP written by SinglePositioningDFXPWriter / LegacyDFXPWriter (read by the one DFXP reader)
+ROUTES = ["dfxp", "sami", "dfxp>sami", "sami>dfxp", "vtt", "dfxp>vtt", "sami>vtt", "dfxp-single", "dfxp-legacy", "sami>dfxp-legacy"]
 
 
 def bounds(tier):
@@ -253,8 +254,10 @@ def run_route(route, shape, spans, lay=None):
     doc = None
     for hop in hops:
         try:
-            if hop == "dfxp":
-                doc = shared.obj(pycaption.DFXPWriter).write(cs)
+            if hop.startswith("dfxp"):
+                from pycaption.dfxp import extras
+
+                doc = shared.obj({"dfxp": pycaption.DFXPWriter, "dfxp-single": extras.SinglePositioningDFXPWriter, "dfxp-legacy": extras.LegacyDFXPWriter}[hop]).write(cs)
                 try:
                     parsers.parse_ttml(doc)
                 except parsers.ParseError as e:
